@@ -16,6 +16,8 @@ from .rules import omega_tab as RO
 from .rules import calculate as RCa
 from .rules import prism as RP2
 from .rules import omega as ROm
+from .rules import units as RU
+from .rules import invariance as RI
 
 PROPS = {}
 
@@ -230,6 +232,44 @@ prop('C11',
      'finiteness at the small k of a real grid (catastrophic cancellation in (1-E)^2 is a floating-point fact), NFJC '
      'quadrature accuracy and its nan when k hits an x node, the Koyama moment formulas r2/r4 (no reference offline).',
      ['|E| <= 1 for E=exp(-x^2) and E=sin(x)/x; the bounds omega<=N, omega->N, omega->1 follow from the certified sum form'])
+
+
+def _r17_libnames(ctx):
+    return ROm.rule_library_names(ctx, 'R17.a', packages=('pyPRISM.util',))
+
+
+prop('C17',
+     [('R00.dyn', RG.rule_no_dynamic), ('R17.d', RU.rule_conversions), ('R17.u', RU.rule_unit_literals)],
+     'Static analysis of pyPRISM/util/UnitConverter.py: the constructor and the six documented conversion methods are '
+     'abstractly interpreted with pint quantities modelled as (magnitude term, unit monomial); the pinned pint registry is '
+     'consulted as library metadata for existence, dimensionality, base factor and offset of every unit literal (a '
+     'dimension mismatch raises DimensionalityError in the model exactly where pint would, which exercises the molar / '
+     'non-molar retry in toKelvin); pi, N_A, k_B stay symbolic so that the returned magnitude can be compared with the '
+     'textbook formula as a term; every method must return the result of a final .to(<plain unit>) (pint keeps pi, N_A, '
+     'k_B as units, so an unconverted product has the wrong magnitude); linear/affine in the argument; every unit '
+     'literal in the module must exist in the registry.',
+     'pint conversion arithmetic itself (trusted); elementwise behaviour on arrays follows from magnitudes being '
+     'products/quotients only (no reductions) but numpy broadcasting is not modelled.',
+     trusted=('A1', 'A4', 'A5'))
+
+
+prop('C04',
+     [('R00.dyn', RG.rule_no_dynamic), ('R04.a', RI.rule_swap_symmetry), ('R04.b', RI.rule_symmetric_tables),
+      ('R04.c', RI.rule_label_parametricity), ('R04.e', RI.rule_potential_degree), ('R04.k', RI.rule_kT_degree),
+      ('R15.f', RDn.rule_density), ('R15.s', RDn.rule_diameter), ('R13.9', RM.rule_items),
+      ('R14.m', RT.rule_pairtable_setitem), ('R13.i', RM.rule_iterpairs), ('R14.i', RT.rule_iterpairs),
+      ('R05.x', RCa.rule_chi), ('R05.l', RCa.rule_spinodal), ('R05.b2', RCa.rule_second_virial),
+      ('R16.w', RP2.rule_wiring), ('R01.a', RP2.rule_cost)],
+     'Static analysis of the structural part: (permutation/renaming) core/ and calculate/ never address a type by a '
+     'literal name or position and compare labels only for (in)equality, all type-keyed storage is symmetric (MatrixArray '
+     'setter, PairTable mirror, no asymmetric table is ever constructed), every pair loop visits each unordered pair once '
+     '(predicate truth tables) and every per-pair formula is symmetric under exchange of the two labels; (energy scale) '
+     'every potential is homogeneous of degree 1 in its energy parameters, the closure sees u/kT, the cost residual is '
+     'invariant under a joint rescaling of all potentials and kT, structural results are independent of kT, and pmf / '
+     'solvation potential are linear in kT; plus the density conventions (rho_a rho_b, rho_a / rho_a+rho_b) that the '
+     'species-splitting identity relies on.',
+     'the species-splitting identity g_AA = g_AB = g_BB = g (a theorem about the PRISM equations with these density '
+     'conventions, not a shape of the code) and "equal to the accuracy of two converged solves".')
 
 
 def run(pid, tier, repo, seed=0, replay=None, write=True):
